@@ -230,6 +230,51 @@ def kernel_exec_vs_so(ck, items):
                 ck.broke("correspondence", "Model/CLang.exec vs gcc", f"case {idx} W={W} input {inp}: model {m} library {got}")
 
 
+def logit_resolution(ck):
+    """The gate of a raw neuron is the largest LOGIT (what eval mode uses).  Anything that extracts gates from a derived quantity -
+    softmax(logits / temperature), probabilities after rounding - picks another gate when two logits differ by less than the derived
+    quantity resolves, or when the layer's temperature is so large that every probability rounds to 1/16.  Models built with extreme
+    (legal) temperatures and with near-tied logits whose larger entry has the higher gate number; exhaustive inputs, two word sizes."""
+    import torch
+    from torchlogix.layers import LogicDense, GroupSum
+    rng = ck.rng
+    cfgs = [("temperature-1e9", 1e9, None), ("temperature-1e-30", 1e-30, None), ("near-tie-1e-8", 1.0, (0.0, 1e-8)),
+            ("near-tie-one-ulp", 1.0, (5.0, 5.0000005)), ("near-tie-T30", 30.0, (2.0, 2.000001))]
+    for name, tau, tie in cfgs:
+        for W in (8, 64):
+            torch.manual_seed(ck.seed + 21)
+            layers = [LogicDense(6, 10, device="cpu", weight_init="random", temperature=tau),
+                      LogicDense(10, 9, device="cpu", weight_init="random", temperature=tau),
+                      LogicDense(9, 8, device="cpu", weight_init="random", temperature=tau)]
+            if tie is not None:
+                with torch.no_grad():
+                    for l in layers:
+                        for r in range(l.weight.shape[0]):
+                            lo, hi = sorted(rng.sample(range(16), 2))
+                            l.weight[r].fill_(-4.0)
+                            l.weight[r, lo] = tie[0]
+                            l.weight[r, hi] = tie[1]
+            model = torch.nn.Sequential(*layers, GroupSum(2, 1.0, device="cpu"))
+            case = {"kind": "logit-resolution", "name": name, "W": W, "temperature": tau}
+            ck.case(case, nontrivial=True, kind="logit-resolution")
+            rows = nets.all_rows(6)
+            exp = [[int(round(v)) for v in r] for r in compiled.torch_eval(model, rows).tolist()]
+            try:
+                net = compiled.build(model, W)
+                compiled.compile_net(net)
+                got = [[int(v) for v in r] for r in compiled.forward(net, rows)]
+            except Exception as e:
+                ck.disagree("a dense model with legal temperature / logits could not be compiled", case, observed=repr(e)[:200],
+                            signature={"what": "logit-resolution", "kind": "error"})
+                continue
+            if got != exp:
+                j = next(i for i in range(len(rows)) if got[i] != exp[i])
+                ids = [int(a != b) for l in layers for a, b in zip(l.get_gate_ids().tolist(), l.weight.argmax(-1).tolist())]
+                ck.disagree("compiled library differs from the eval-mode PyTorch model (gates taken from rounded probabilities instead of the logits)",
+                            dict(case, row=rows[j], differing_rows=sum(1 for a, b in zip(got, exp) if a != b), reported_gate_ids_differing=sum(ids)),
+                            expected=exp[j], observed=got[j], signature={"what": "logit-resolution", "kind": "wrong"})
+
+
 def run(ck: Check):
     ck.trusted = TRUSTED
     ck.rule = ("systematic then random dense models (every gate id as a whole layer; depth 1..7 with and without leading "
@@ -249,6 +294,7 @@ def run(ck: Check):
     kernel_exec_vs_so(ck, items)
     # a fresh compilation follows the CURRENT logits whatever mechanism changed them (nothing memoised in the layer goes stale)
     protocols.dense_protocol(ck, "raw", "")
+    logit_resolution(ck)
     return ck.finish()
 
 
